@@ -470,6 +470,11 @@ func (p *bprover) linOf1(v ssa.Value) blin {
 				return r
 			}
 		case token.MUL:
+			if g, ok := x.X.(*ssa.Global); ok {
+				if k, ok := p.w.globalInt(g); ok && okMag(k) && (irange{k, k, true, true}).within(typeRange(x.Type())) {
+					return blconst(k)
+				}
+			}
 			if c, ok := p.canon[x]; ok && c != ssa.Value(x) {
 				return p.linOf(c)
 			}
@@ -2605,10 +2610,12 @@ func (w *World) globalLen(g *ssa.Global) (int64, bool) {
 				}
 			}
 		}
+		w.gvals = map[*ssa.Global]ssa.Value{}
 		for gl, n := range count {
 			if n != 1 || escaped[gl] {
 				continue
 			}
+			w.gvals[gl] = val[gl]
 			switch v := val[gl].(type) {
 			case *ssa.Slice:
 				if al, ok := v.X.(*ssa.Alloc); ok && v.Low == nil && v.High == nil {
@@ -2625,6 +2632,36 @@ func (w *World) globalLen(g *ssa.Global) (int64, bool) {
 	}
 	n, ok := w.glens[g]
 	return n, ok
+}
+
+// globalInt: the value of a package-level integer variable whose only store
+// in the whole program is its initialiser, when that is a constant or the
+// length of a package-level literal (var n = int32(len(table))).
+func (w *World) globalInt(g *ssa.Global) (int64, bool) {
+	w.globalLen(g) // fills the tables
+	v, ok := w.gvals[g]
+	if !ok {
+		return 0, false
+	}
+	for i := 0; i < 4; i++ {
+		switch x := v.(type) {
+		case *ssa.Const:
+			return bconstInt(x)
+		case *ssa.Convert:
+			v = x.X
+			continue
+		case *ssa.Call:
+			if b, ok := x.Call.Value.(*ssa.Builtin); ok && b.Name() == "len" && len(x.Call.Args) == 1 {
+				if ld, ok := x.Call.Args[0].(*ssa.UnOp); ok && ld.Op == token.MUL {
+					if g2, ok := ld.X.(*ssa.Global); ok {
+						return w.globalLen(g2)
+					}
+				}
+			}
+		}
+		break
+	}
+	return 0, false
 }
 
 // canonLookup identifies m[k] with an earlier m[k] (same SSA map and key
